@@ -170,7 +170,7 @@ def run_case(ctx, rng):
 
 def run(ctx):
     rng = ctx.rng
-    for case in range(6000 if ctx.thorough() else 1200):
+    for case in range(100000 if ctx.thorough() else 1200):
         if ctx.stop():
             return
         run_case(ctx, rng)
